@@ -128,6 +128,8 @@ def load_expansion():
 # ------------------------------------------------------------------------------------------ Verus
 ERR_KINDS = [
     ('postcondition not satisfied', 'postcondition'),
+    ('unable to prove post-condition of closure', 'closure-postcondition'),
+    ('unable to prove pre-condition of closure', 'closure-precondition'),
     ('invariant not satisfied', 'invariant'),
     ('assertion failed', 'assertion'),
     ('precondition not satisfied', 'precondition'),
